@@ -44,6 +44,14 @@ case("F-N", "C16", "goimports-same-imports",
      extra={"deps/zzz/zzz.go": "package yaml\n\ntype Node struct{ A int }\n"},
      note="goimports run from a cwd outside the module cannot resolve package yaml in directory zzz and removes the import")
 
+def gopath_case(fid, prop, oracle, files, cfg_, note):
+    c = {"property": prop, "oracle": oracle, "mod_path": "example.com/w", "gopath": True, "files": files, "src_dir": "src",
+         "src_path": "example.com/w/src", "src_name": "src", "config": cfg_, "note": note, "labels": ["known:" + fid]}
+    d = "/verif/known/" + fid
+    os.makedirs(d, exist_ok=True)
+    json.dump(c, open(d + "/case.json", "w"), indent=1)
+
+
 def fcase(fid, prop, oracle, files, cfg_, scenario, note):
     c = {"property": prop, "oracle": oracle, "mod_path": "example.com/w", "files": files, "src_dir": "src",
          "src_path": "example.com/w/src", "src_name": "src", "config": cfg_, "note": note, "labels": ["known:" + fid], "scenario": scenario}
